@@ -362,7 +362,8 @@ class Exec:
         for g, ty in c.ghosts.items():
             self.ghosts[g] = self.fresh_value(ty, "ghost_" + g)
         pre = self.eval_requires(c, self.params)
-        st.pc.append(pre)
+        # conjuncts separately: the quantifier-free ones then take part in cheap path pruning
+        st.pc.extend(_conjuncts(pre))
         self.pre = pre
         facts = getattr(c.cls, "facts", None)
         if facts is not None:
@@ -1882,6 +1883,10 @@ def _mod_operands(lname, a):
         return [(a[0] * a[1], a[1])]
     if lname == "mod_neg_zero":
         return [(a[0], a[1]), (-a[0], a[1])]
+    if lname == "ceil_identity":
+        return [(a[0] - 1, a[1]), (-a[0], a[1])]
+    if lname == "div_neg":
+        return [(a[0], a[1]), (-a[0], -a[1])]
     return []
 
 
@@ -1942,6 +1947,18 @@ class _Sym(Exception):
 class _RaisePath(Exception):
     def __init__(self, exc, st, line):
         self.exc, self.st, self.line = exc, st, line
+
+
+def _conjuncts(t):
+    out = []
+    stack = [t]
+    while stack:
+        e = stack.pop()
+        if z3.is_and(e):
+            stack.extend(reversed(e.children()))
+        else:
+            out.append(e)
+    return out
 
 
 def _has_quantifier(t):
